@@ -640,7 +640,10 @@ class StructRun(object):
                                 continue
                             if IC.diff(getattr(xf, k, None), falsy) and not isinstance(falsy, primitives.Base):
                                 # the constructor itself normalised the falsy value away (e.g. '' -> None)
-                                if getattr(xf, k, None) is None:
+                                held = getattr(xf, "_" + k, None)
+                                holds = isinstance(held, primitives.Base) and not isinstance(held, primitives.Struct) \
+                                    and not IC.diff(getattr(held, "value", None), falsy)
+                                if getattr(xf, k, None) is None and not holds:
                                     self.stats["falsy_normalised_by_ctor"] = \
                                         self.stats.get("falsy_normalised_by_ctor", 0) + 1
                                     continue
@@ -897,7 +900,17 @@ def field_survives(x, k, v, emitted, cls_name):
         a, c = getattr(xv, k), getattr(y, k)
     except Exception:
         return None
-    return not IC.diff(a, c)
+    if IC.diff(a, c):
+        return False
+    # what the objects HOLD (the primitive behind the property), not only what their property getters report: a getter
+    # that tests the held primitive's truthiness reports None on both sides when the value was lost on the way
+    ha, hc = getattr(xv, "_" + k, None), getattr(y, "_" + k, None)
+    if isinstance(ha, primitives.Base) and not isinstance(ha, primitives.Struct) and (hc is None or isinstance(hc, primitives.Base)):
+        va = getattr(ha, "value", None)
+        vc = None if hc is None else getattr(hc, "value", None)
+        if va is not None and IC.diff(va, vc):
+            return False
+    return True
 
 
 def presence_mask(o):
